@@ -25,6 +25,7 @@ import (
 	"hash/fnv"
 	"math/rand"
 	"os"
+	"regexp"
 	"strconv"
 	"strings"
 	"testing/fstest"
@@ -54,6 +55,7 @@ type vec struct {
 	Outs     []outcome `json:"outs"`
 	Explicit []zg.Line `json:"explicit"`
 	Minimal  []zg.Line `json:"minimal"`
+	Given    hx.B      `json:"given"`
 	// gen
 	Undef  bool     `json:"undef"`
 	Err    bool     `json:"err"`
@@ -205,6 +207,15 @@ func flipOrder(ls []zg.Line, r *rand.Rand) []zg.Line {
 	return out
 }
 
+func hasInclude(ls []zg.Line) bool {
+	for _, l := range ls {
+		if l.K == "include" {
+			return true
+		}
+	}
+	return false
+}
+
 func renderFS(files []zg.File, st *zg.Style, sp *speller) fstest.MapFS {
 	m := fstest.MapFS{}
 	for _, f := range files {
@@ -233,55 +244,92 @@ func tmplClass(t hx.B) string {
 	return "plain"
 }
 
-func fieldKey(l zg.Line, field, src string) string {
-	k := "zone/" + l.K + ":" + field
-	if field == "ttl" {
-		k += ":" + src
+func refIsMnemonic(r zg.Ref) bool {
+	return r.K == "rel" && len(r.N) == 1 && zg.IsMnemonic(r.N[0].String())
+}
+
+// fieldKey names the class of a wrong record field: the kind of line the record was written as
+// (rr / generate), the field, for TTLs where the value should have come from, for $GENERATE
+// templates whether they use backslash escapes or ${} modifiers, and for records spliced in by
+// an $INCLUDE whose origin argument spells a type/class mnemonic that special class.
+func fieldKey(l zg.Line, rec zg.Rec, field string) string {
+	kind := l.K
+	if rec.Via == "generate" {
+		kind = "generate"
 	}
-	if l.K == "generate" {
-		switch field {
-		case "owner":
-			k += ":" + tmplClass(l.Lhs)
-		case "rdata":
-			c := "plain"
+	k := "zone/" + kind + ":" + field
+	if field == "ttl" {
+		k += ":" + rec.Src
+	}
+	if l.K == "include" && refIsMnemonic(l.Origin) && (field == "owner" || field == "rdata") {
+		return "zone/include:" + field + ":mnemonic-origin"
+	}
+	if kind == "generate" && (field == "owner" || field == "rdata") {
+		if l.K != "generate" {
+			return k + ":nested"
+		}
+		c := tmplClass(l.Lhs)
+		if field == "rdata" {
+			c = "plain"
 			for _, it := range l.Rhs {
 				if x := tmplClass(it.Raw); x == "esc" || (x == "mod" && c == "plain") {
 					c = x
 				}
 			}
-			k += ":" + c
 		}
+		k += ":" + c
 	}
 	return k
 }
 
+var knownKeys = func() map[string]bool {
+	m := map[string]bool{}
+	for _, k := range strings.Split(os.Getenv("VERIF_KNOWN"), ",") {
+		if k != "" {
+			m[k] = true
+		}
+	}
+	return m
+}()
+
 // judge compares what the parser did with what the lines may denote; "" = admissible.
+// The lines may denote several record lists (one per AMBIG reading).  If the parser's list is
+// none of them, the discrepancy is described against the reading that agrees longest -- unless
+// against some other admissible reading it is an instance of a finding already on record
+// (VERIF_KNOWN): then that description is used, so that a known defect does not come back
+// under a second name through a reading the code does not even follow.
 func judge(lines []zg.Line, outs []outcome, o *zg.Observed, lineOfErr func() string) (key, what string) {
-	gotErr := o.Err != nil
-	best, bestPre := -1, -1
-	for k, out := range outs {
+	if len(outs) == 0 {
+		return "zone/no-outcome", "the specification gave no outcome"
+	}
+	bestKey, bestWhat, bestScore := "", "", -1
+	for _, out := range outs {
 		if out.Undef {
 			return "", ""
 		}
-		pre := 0
-		for pre < len(out.Recs) && pre < len(o.Recs) && zg.SameRec(out.Recs[pre], o.Recs[pre]) == "" {
-			pre++
-		}
-		if pre == len(out.Recs) && pre == len(o.Recs) && out.Err == gotErr {
+		k, w, score := judgeOne(lines, out, o, lineOfErr)
+		if k == "" {
 			return "", ""
 		}
-		score := pre*2 + b2i(out.Err == gotErr)
-		if score > bestPre {
-			best, bestPre = k, score
+		if knownKeys[k] {
+			score += 1 << 30
+		}
+		if score > bestScore {
+			bestKey, bestWhat, bestScore = k, w, score
 		}
 	}
-	if best < 0 {
-		return "zone/no-outcome", "the specification gave no outcome"
-	}
-	out := outs[best]
+	return bestKey, bestWhat
+}
+
+func judgeOne(lines []zg.Line, out outcome, o *zg.Observed, lineOfErr func() string) (key, what string, score int) {
+	gotErr := o.Err != nil
 	pre := 0
 	for pre < len(out.Recs) && pre < len(o.Recs) && zg.SameRec(out.Recs[pre], o.Recs[pre]) == "" {
 		pre++
+	}
+	score = pre*2 + b2i(out.Err == gotErr)
+	if pre == len(out.Recs) && pre == len(o.Recs) && out.Err == gotErr {
+		return "", "", score
 	}
 	kindAt := func(ln int) zg.Line {
 		if ln >= 1 && ln <= len(lines) {
@@ -293,22 +341,22 @@ func judge(lines []zg.Line, outs []outcome, o *zg.Observed, lineOfErr func() str
 	case pre < len(out.Recs) && pre < len(o.Recs):
 		f := zg.SameRec(out.Recs[pre], o.Recs[pre])
 		l := kindAt(out.Recs[pre].Ln)
-		return fieldKey(l, f, out.Recs[pre].Src), fmt.Sprintf("record %d (line %d, %s): %s differs: spec %v, parser %v", pre+1, out.Recs[pre].Ln, l.K, f, show(out.Recs[pre]), show(o.Recs[pre]))
+		return fieldKey(l, out.Recs[pre], f), fmt.Sprintf("record %d (line %d, %s): %s differs: spec %v, parser %v", pre+1, out.Recs[pre].Ln, l.K, f, show(out.Recs[pre]), show(o.Recs[pre])), score
 	case pre < len(out.Recs): // the parser stopped early
 		l := kindAt(out.Recs[pre].Ln)
 		if gotErr && !out.Err {
-			return "zone/rejects:" + lineOfErr(), fmt.Sprintf("parser error %q after %d records; the lines denote %d records and no error", o.ErrText, len(o.Recs), len(out.Recs))
+			return "zone/rejects:" + lineOfErr(), fmt.Sprintf("parser error %q after %d records; the lines denote %d records and no error", o.ErrText, len(o.Recs), len(out.Recs)), score
 		}
-		return "zone/" + l.K + ":missing-record", fmt.Sprintf("record %d (line %d) is missing: spec %v; parser returned %d records, err=%v", pre+1, out.Recs[pre].Ln, show(out.Recs[pre]), len(o.Recs), o.ErrText)
+		return "zone/" + l.K + ":missing-record", fmt.Sprintf("record %d (line %d) is missing: spec %v; parser returned %d records, err=%v", pre+1, out.Recs[pre].Ln, show(out.Recs[pre]), len(o.Recs), o.ErrText), score
 	case pre < len(o.Recs): // the parser went on
 		if out.Err {
-			return "zone/accepts:" + kindAt(out.Errln).K, fmt.Sprintf("line %d must be refused; parser returned %d further records, first %v", out.Errln, len(o.Recs)-pre, show(o.Recs[pre]))
+			return "zone/accepts:" + kindAt(out.Errln).K, fmt.Sprintf("line %d must be refused; parser returned %d further records, first %v", out.Errln, len(o.Recs)-pre, show(o.Recs[pre])), score
 		}
-		return "zone/extra-record", fmt.Sprintf("parser returned %d records, the lines denote %d; first extra %v", len(o.Recs), len(out.Recs), show(o.Recs[pre]))
+		return "zone/extra-record", fmt.Sprintf("parser returned %d records, the lines denote %d; first extra %v", len(o.Recs), len(out.Recs), show(o.Recs[pre])), score
 	case out.Err && !gotErr:
-		return "zone/accepts:" + kindAt(out.Errln).K, fmt.Sprintf("line %d (%s) must be refused; parser reported no error", out.Errln, kindAt(out.Errln).K)
+		return "zone/accepts:" + kindAt(out.Errln).K, fmt.Sprintf("line %d (%s) must be refused; parser reported no error", out.Errln, kindAt(out.Errln).K), score
 	default:
-		return "zone/rejects:" + lineOfErr(), fmt.Sprintf("parser error %q; the lines denote %d records and no error", o.ErrText, len(out.Recs))
+		return "zone/rejects:" + lineOfErr(), fmt.Sprintf("parser error %q; the lines denote %d records and no error", o.ErrText, len(out.Recs)), score
 	}
 }
 
@@ -322,6 +370,32 @@ func b2i(b bool) int {
 func show(r zg.Rec) string {
 	st := zg.Style{}
 	return fmt.Sprintf("{%s ttl=%d class=%d type=%d rdata=%v}", st.NameText(r.Owner, true), r.TTL, r.Class, r.Type, []int(r.Rdata))
+}
+
+var quotedTok = regexp.MustCompile(`: ("(?:[^"\\]|\\.)*") at line: \d+:\d+$`)
+
+// errClass: the kind of line the real parser refused (from the error's line number), and
+// ":mnemonic-token" when the token it complains about spells a type / class mnemonic.
+func errClass(o *zg.Observed, rf *zg.Spelling) string {
+	kind := "include"
+	if o.PEFile == "db" {
+		kind = "none"
+		ln := 1
+		for j, t := range rf.Texts {
+			n := strings.Count(t, "\n")
+			if o.PELine < ln+max(n, 1) {
+				kind = rf.Lines[j].K
+				break
+			}
+			ln += n
+		}
+	}
+	if m := quotedTok.FindStringSubmatch(o.ErrText); m != nil {
+		if tok, err := strconv.Unquote(m[1]); err == nil && zg.IsMnemonic(tok) {
+			kind += ":mnemonic-token"
+		}
+	}
+	return kind
 }
 
 type spelling struct {
@@ -351,6 +425,9 @@ func replayZone(i int, v *vec, sum *hx.Summary, sp *speller) (nontrivial bool, n
 	if hx.Thorough() {
 		sps = append(sps, spelling{"noisy2", v.Lines, true}, spelling{"explicit2", v.Explicit, true})
 	}
+	if len(v.Given) > 0 {
+		sps = append(sps, spelling{"given", v.Lines, false})
+	}
 	for k, s := range sps {
 		r := rand.New(rand.NewSource(seedFor("zone", i, k, len(v.Lines))))
 		st := &zg.Style{R: r, Noise: s.noise}
@@ -359,15 +436,38 @@ func replayZone(i int, v *vec, sum *hx.Summary, sp *speller) (nontrivial bool, n
 			lines = flipOrder(lines, r)
 		}
 		rf := st.RenderFile(lines)
-		for j := range rf.Lines {
-			sp.line(rf.Texts[j], rf.Lines[j])
+		if s.name == "given" { // a spelling supplied with the case: one entry per physical line
+			rf = zg.Spelling{Text: v.Given.Bytes(), Lines: lines}
+			for _, t := range strings.SplitAfter(v.Given.String(), "\n") {
+				if t != "" {
+					rf.Texts = append(rf.Texts, t)
+				}
+			}
+			if len(rf.Texts) != len(lines) {
+				rf.Texts = []string{v.Given.String()}
+				rf.Lines = []zg.Line{{K: "none"}}
+				if len(lines) == 1 {
+					rf.Lines = lines
+				}
+			}
+			sp.file(rf.Text, lines)
+		} else {
+			for j := range rf.Lines {
+				sp.line(rf.Texts[j], rf.Lines[j])
+			}
+			if (i+k)%97 == 0 {
+				sp.file(rf.Text, rf.Lines)
+			}
 		}
-		if (i+k)%97 == 0 {
-			sp.file(rf.Text, rf.Lines)
+		fs := fstest.MapFS{}
+		if hasInclude(lines) { // (otherwise the include FS is never consulted)
+			fs = renderFS(v.Cfg.Files, st, sp)
 		}
-		fs := renderFS(v.Cfg.Files, st, sp)
 		o, timedOut, _ := zg.RunBudget(rf.Text, runCfgOf(v.Cfg, fs), budget)
 		cs := map[string]interface{}{"cfg": v.Cfg, "lines": v.Lines, "spelling": s.name, "text": string(rf.Text)}
+		if s.name == "given" {
+			cs["given"] = v.Given
+		}
 		nspell++
 		if timedOut {
 			sum.Mis("zone/timeout", "parsing did not finish within the budget, three times", cs)
@@ -380,21 +480,7 @@ func replayZone(i int, v *vec, sum *hx.Summary, sp *speller) (nontrivial bool, n
 		if !v.Cfg.IncAllowed && len(o.Opens) > 0 {
 			sum.Mis("zone/open-when-disallowed", fmt.Sprintf("Open(%q) although includes are not allowed", o.Opens[0]), cs)
 		}
-		lineOfErr := func() string {
-			if o.PEFile != "db" {
-				return "include"
-			}
-			// physical line -> rendered line -> kind
-			ln := 1
-			for j, t := range rf.Texts {
-				n := strings.Count(t, "\n")
-				if o.PELine < ln+max(n, 1) {
-					return rf.Lines[j].K
-				}
-				ln += n
-			}
-			return "none"
-		}
+		lineOfErr := func() string { return errClass(&o, &rf) }
 		key, what := judge(lines, v.Outs, &o, lineOfErr)
 		if key != "" {
 			sum.Mis(key, s.name+" spelling: "+what, cs)
@@ -439,7 +525,7 @@ func replayGen(i int, v *vec, sum *hx.Summary, sp *speller) bool {
 					continue
 				}
 				if f := zg.SameRec(s.Rec, o.Recs[s.J-1]); f != "" {
-					sum.Mis(fieldKey(g, f, "stated"), fmt.Sprintf("$GENERATE %s step %d: %s differs: spec %v, parser %v", rng, s.J, f, show(s.Rec), show(o.Recs[s.J-1])), cs)
+					sum.Mis(fieldKey(g, zg.Rec{Via: "generate", Src: "stated"}, f), fmt.Sprintf("$GENERATE %s step %d: %s differs: spec %v, parser %v", rng, s.J, f, show(s.Rec), show(o.Recs[s.J-1])), cs)
 					break
 				}
 			}
@@ -509,7 +595,7 @@ func safety(fam string, n int, o *zg.Observed, timedOut bool, c zg.RunCfg, chain
 	if !c.NoMem {
 		limit := uint64(2048*n + 4<<20)
 		if fam == "generate" {
-			limit += 65536 * 4096
+			limit += 65536 * 16384 // one record per step, each re-lexed from the template (two 512-octet buffers per token)
 		}
 		if o.Alloc > limit {
 			sum.Mis("zone/hostile:alloc:"+fam, fmt.Sprintf("%d bytes allocated for %d bytes of input (limit %d)", o.Alloc, n, limit), cs)
@@ -562,7 +648,18 @@ func (g *gen) ref(allowOmit bool) zg.Ref {
 	}
 }
 
-var ttls = []int{0, 1, 59, 60, 300, 3600, 5400, 86400, 90061, 604800, 1209600, 2147483647}
+var ttls = []int{0, 1, 59, 60, 300, 3600, 5400, 86400, 90061, 604800, 1209600, 2000000000}
+
+// argRef: a name in directive-argument position ($ORIGIN, $INCLUDE origin).  A single relative
+// label that spells a type / class mnemonic is left to the dedicated cases (see IsMnemonic).
+func (g *gen) argRef() zg.Ref {
+	for {
+		r := g.ref(false)
+		if !refIsMnemonic(r) {
+			return r
+		}
+	}
+}
 
 func (g *gen) hdr(l *zg.Line) {
 	l.TTL, l.Class, l.Order = -1, 0, "tc"
@@ -634,9 +731,9 @@ func (g *gen) lines(n, depth int) []zg.Line {
 		case x < 58:
 			ls = append(ls, g.rr())
 		case x < 66:
-			r := g.ref(false)
+			r := g.argRef()
 			for r.K == "at" && g.r.Intn(2) == 0 {
-				r = g.ref(false)
+				r = g.argRef()
 			}
 			ls = append(ls, zg.Line{K: "origin", Name: r})
 		case x < 74:
@@ -648,7 +745,7 @@ func (g *gen) lines(n, depth int) []zg.Line {
 		default:
 			l := zg.Line{K: "include", Origin: zg.Ref{K: "omit", N: []hx.B{}}}
 			if g.r.Intn(2) == 0 {
-				l.Origin = g.ref(false)
+				l.Origin = g.argRef()
 			}
 			switch {
 			case g.r.Intn(8) == 0:
